@@ -102,7 +102,7 @@ def ExcText(exc):
   except Exception:  # pylint: disable=broad-except
     s = repr(exc)
   ctx = ''
-  for attr in ('rule_str', 'location', 'functor'):
+  for attr in ('rule_str', 'location', 'functor_name'):
     if hasattr(exc, attr):
       try:
         ctx += ' | %s=%s' % (attr, str(getattr(exc, attr)))
